@@ -293,7 +293,7 @@ Proof.
   - rewrite <- Ho. unfold f'. lia.
   - rewrite Efree, <- Ho. lia.
   - rewrite <- Ho. unfold f'. fold n. lia.
-  - rewrite <- Ho, <- Hp, <- Hrec. fold n. apply tp_slice_write_same. lia.
+  - rewrite <- Ho, <- Hp, <- Hrec. fold n. apply tp_slice_write_same. fold rec. lia.
   - destruct H as (Hlo & _). rewrite Efree. fold f in Hlo. unfold f'. lia.
   - apply H.
   - destruct H as (Hlo & Hhi & Hs). fold f in Hlo.
